@@ -29,11 +29,12 @@ SCHEMA = {
                        "type": "mp_types.Type | None", "explicit_self_type": "bool", "is_inferred": "bool"},
 }
 
+# pathlib: `parts` (a tuple of str) is modelled as a list of str — only membership, indexing, slicing and iteration are used
 SCHEMA.update({
     "argparse.Namespace": {"src": "pathlib.Path", "out": "pathlib.Path", "testrun": "bool", "naming_convert": "bool",
                            "verbose": "bool", "docstyle": "DocstringStyle", "type_source_preference": "TypeSourcePreference",
                            "show_type_source_warning": "TypeSourceWarning"},
-    "pathlib.PurePath": {"stem": "str", "name": "str", "parts": "Sequence[str]", "parent": "pathlib.Path"},
+    "pathlib.PurePath": {"stem": "str", "name": "str", "parts": "list[str]", "parent": "pathlib.Path"},
     "_griffe.expressions.Expr": {"canonical_path": "str", "canonical_name": "str"},
     "_griffe.expressions.ExprSubscript": {"slice": "griffe.Expr | str", "left": "griffe.Expr | str"},
     "_griffe.expressions.ExprTuple": {"elements": "list[griffe.Expr | str]"},
@@ -45,6 +46,7 @@ SCHEMA.update({
 # assumed result shapes of external functions (otherwise their results are unconstrained values)
 EXTERNAL_RETURNS = {
     "pathlib.Path.resolve": "pathlib.Path",
+    "pathlib.Path.glob": "list[pathlib.Path]",
     "pathlib.PurePath.joinpath": "pathlib.Path",
     "pathlib.Path.open": "io.TextIOWrapper",
     "pathlib.Path.exists": "bool",
@@ -53,6 +55,7 @@ EXTERNAL_RETURNS = {
 }
 
 # un-annotated instance attributes of repo classes (shape = what the constructor stores)
+# pathlib: `parts` (a tuple of str) is modelled as a list of str — only membership, indexing, slicing and iteration are used
 SCHEMA.update({
     "safeds_stubgen.stubs_generator._stub_string_generator.StubsStringGenerator": {
         "api": "API", "naming_convention": "NamingConvention", "reexport_module_id": "str"},
